@@ -66,8 +66,14 @@ class Case:
     __slots__ = ("id", "fmt", "veneers", "defs")
 
 
+def pkg_free(r, text):
+    """builders of anonymous structs carry the package name (the lab's case ID) as a prefix: spelled %Pkg% in pinned lines"""
+    pk = r.case.id[:1].upper() + r.case.id[1:]
+    return re.sub(r"(?<![A-Za-z0-9])" + re.escape(pk) + r"(?=[A-Z])", "%Pkg%", text)
+
+
 def pinned_line(r):
-    return "\t".join([r.case.fmt, r.case.defs, r.case.veneers, r.builder, r.doc])
+    return "\t".join([r.case.fmt, r.case.defs, r.case.veneers, pkg_free(r, r.builder), r.doc])
 
 
 def case_text(r):
